@@ -1,7 +1,7 @@
 """C08 — Fourier filter splits the data exactly, removes only low-r signal (real code)."""
 import numpy as np
 import impl, cases
-from .common import tolist, Unchanged
+from .common import tolist, Unchanged, exceeds
 from .c02 import weights
 
 LEAN = "PystogVerif.Props.C08"
@@ -58,14 +58,14 @@ def evaluate(case):
         total = rem + cor - 1.0
     else:
         total = rem + cor - t
-    if np.abs(total - fq)[pos].max(initial=0.0) > 1e-9 * sc:
+    if exceeds(np.abs(total - fq)[pos].max(initial=0.0), 1e-9 * sc):
         fails.append(f"{name}: removed + corrected does not add back to the input ({np.abs(total - fq)[pos].max():.3g})")
     d_in = np.zeros_like(fq) if dfq is None else dfq
     # quadrature in the function's own units (conversions scale all three uncertainties alike)
     expq = np.sqrt(d_in ** 2 + drem ** 2)
     ok = pos
     scq = max(float(np.abs(expq).max()), 1e-300)
-    if np.abs(dcor - expq)[ok].max(initial=0.0) > 1e-9 * scq:
+    if exceeds(np.abs(dcor - expq)[ok].max(initial=0.0), 1e-9 * scq):
         fails.append(f"{name}: uncertainties do not combine in quadrature")
     # changing real-space data beyond the cutoff changes nothing in the removed component
     a2 = list(case["args"])
@@ -87,14 +87,14 @@ def evaluate(case):
         a3[1] = gz
         out3, _ = run(case, a3)
         base = {"F": 0.0, "FK": 0.0, "S": 1.0, "DCS": t}[Y]
-        if np.abs(np.asarray(out3[1]) - base)[pos].max(initial=0.0) > 1e-9 * max(1.0, float(np.abs(gz).max()) * float(r.max()) ** 2 * 20 * kw["rho"]):
+        if exceeds(np.abs(np.asarray(out3[1]) - base)[pos].max(initial=0.0), 1e-9 * max(1.0, float(np.abs(gz).max()) * float(r.max()) ** 2 * 20 * kw["rho"])):
             fails.append(f"{name}: something is removed although g(r) vanishes on [0,cutoff]")
     # filtered real-space function = transform of the corrected function
     tr = impl.obj("Transformer")
     with np.errstate(all="ignore"):
         rr, gg, dgg = getattr(tr, f"{Y}_to_{X}")(qc, cor, r, dcor, **kw)
     if not (np.array_equal(np.asarray(gg), go, equal_nan=True) and np.array_equal(np.asarray(dgg), dgo, equal_nan=True)):
-        if np.abs(np.asarray(gg) - go).max() > 1e-9 * max(1.0, float(np.abs(go).max())):
+        if exceeds(np.abs(np.asarray(gg) - go).max(), 1e-9 * max(1.0, float(np.abs(go).max()))):
             fails.append(f"{name}: returned real-space function is not the transform of the returned corrected function")
     return fails
 
